@@ -33,8 +33,11 @@ Definition mk_stat (total : list Z) (cpus : list (Z * list Z)) (tail : list (Z *
      ks_tail := map (fun t => (tname_of (fst t), map dz (snd t))) tail |}.
 Definition mk_ev (t : Z) (f : fn) (p : bool) (i : ival) (a b : kstat) : kevent :=
   {| ke_tid := t; ke_fn := f; ke_percpu := p; ke_iv := i; ke_k1 := a; ke_k2 := b |}.
-Definition mk_pev (o : Z) (i : ival) (n : Z) (t1 : Q) (u1 s1 : Z) (t2 : Q) (u2 s2 : Z) : Z * pevent :=
-  (o, {| pe_iv := i; pe_ncpu := n; pe_t1 := t1; pe_u1 := u1; pe_s1 := s1; pe_t2 := t2; pe_u2 := u2; pe_s2 := s2 |}).
+(* a reading: timer, utime, stime, cutime, cstime, delayacct_blkio_ticks *)
+Definition mk_rd (t : Q) (u s cu cs io : Z) : preading :=
+  {| r_t := t; r_u := u; r_s := s; r_cu := cu; r_cs := cs; r_io := io |}.
+Definition mk_pev (o : Z) (i : ival) (n : Z) (a b : preading) : Z * pevent :=
+  (o, {| pe_iv := i; pe_ncpu := n; pe_r1 := a; pe_r2 := b |}).
 
 Definition jstats (x : option Z * option Z * option Z) : jv :=
   let '(c, i, s) := x in JL [jopt JZ c; jopt JZ i; jopt JZ s].
